@@ -471,7 +471,10 @@ def mk (l : List (Nat × Kind)) : List Label := l.map fun p => ⟨p.1, p.2⟩
 `StreamController` (which makes `sctl.finalize` the subscriber's `fn_on_unsubscribe`), sets `on_finalize` and posts
 ONE task (line 48); the subscription of the source — and, the source being synchronous, all its emissions — happen
 inside that task on the worker (lines 49-61):
-`sctl.new_observer` (registers the upstream unsubscriber), `inner_subscribe` (observable.rs 29: `is_subscribed` of
+`sctl.new_observer` (registers the upstream unsubscriber, then RE-CHECKS the subscriber — stream_controller.rs 76-89:
+if the subscription has ended meanwhile it removes the entry again and unsubscribes the fresh observer itself, so
+that `inner_subscribe` does not start the source; kinds `chk`, `remove`, `fUp` are reused for these steps),
+`inner_subscribe` (observable.rs 29: `is_subscribed` of
 the fresh observer, three slot reads), then the source runs its script calling `observer.next/error/complete`,
 whose closures call `sctl.sink_*` directly (same code as in observe_on, on the same thread).
 Thread 2 is the optional unsubscriber, exactly as for observe_on. -/
@@ -480,6 +483,9 @@ namespace SubOn
 inductive WPc where
   | take       -- top of the `scheduling` loop
   | newObs     -- subscribe_on.rs 52 `sctl.new_observer(..)`: registers the upstream unsubscriber
+  | rchk0 | rchk1 | rchk2   -- stream_controller.rs 83 `self.subscriber.is_subscribed()`: re-check of the SUBSCRIBER's slots
+  | rrem       -- … the subscription already ended: 87 `unscribers.write().remove(&serial)`
+  | ruc0 | ruc1 | ruc2      -- 88 `observer.unsubscribe()` on the fresh observer: clear its three slots
   | sub0 | sub1 | sub2   -- observable.rs 29 `observer.is_subscribed()`: three reads of the fresh observer's slots
   | src        -- inside the source, between two emissions (or about to return)
   | uClrOther  -- source emits a terminal: upstream `fn_next` claimed, clear the other upstream terminal slot
@@ -517,6 +523,7 @@ structure State where
   consumed : List Ev := []        -- events whose emission the source has started
   delivered : List Ev := []
   skipped : Bool := false         -- `inner_subscribe` found the fresh observer already unsubscribed: source not run
+  lateAttach : Bool := false      -- the unsubscriber had already cleared `fn_next` when `new_observer` registered the upstream
   claimed : Bool := false
   termStarted : Bool := false
   termReturned : Bool := false
@@ -588,7 +595,14 @@ def wrkStep (s : State) (k : Kind) : Option State :=
   match s.wpc, k with
   | .take, .take => if s.abort then none else if s.queued then some { s with queued := false, wpc := .newObs } else none
   | .take, .exit => if s.abort then some { s with wpc := .done } else none
-  | .newObs, .task => some { s with unsc := true, wpc := .sub0 }
+  | .newObs, .task => some { s with unsc := true, wpc := .rchk0, lateAttach := s.unsubBegan }
+  | .rchk0, .chk => some { s with wpc := if s.sNext then .rchk1 else .rrem }
+  | .rchk1, .chk => some { s with wpc := if s.sErr then .rchk2 else .rrem }
+  | .rchk2, .chk => some { s with wpc := if s.sCompl then .sub0 else .rrem }
+  | .rrem, .remove => some { s with unsc := false, wpc := .ruc0 }
+  | .ruc0, .fUp => some { s with upNext := false, wpc := .ruc1 }
+  | .ruc1, .fUp => some { s with upErr := false, wpc := .ruc2 }
+  | .ruc2, .fUp => some { s with upCompl := false, wpc := .sub0 }
   | .sub0, .chk => some { s with wpc := if s.upNext then .sub1 else .take, taskDone := !s.upNext, skipped := !s.upNext }
   | .sub1, .chk => some { s with wpc := if s.upErr then .sub2 else .take, taskDone := !s.upErr, skipped := !s.upErr }
   | .sub2, .chk =>
